@@ -29,9 +29,10 @@ structure St where
   emitted : List Msg
   send : SendPhase
   sentOn : Nat → Nat            -- the connection a waiter's request was written to
+  started : List Nat            -- ids of the requests whose first octet is out
 
 def init : St := ⟨0, fun _ => 0, fun _ => .dropped, fun _ => none, false, 0, fun _ => [], fun _ => .running, [], .idle,
-  fun _ => 0⟩
+  fun _ => 0, []⟩
 
 inductive Label
   | connect
@@ -64,7 +65,7 @@ def step (s : St) : Label → Option St
                     cache := upd s.cache h (some w), send := .registered w, sentOn := upd s.sentOn w (s.nC - 1) }
   | .write =>
     match s.send with
-    | .registered w | .writing w => some { s with send := .writing w }
+    | .registered w | .writing w => some { s with send := .writing w, started := s.hbhOf w :: s.started }
     | .idle => none
   | .sendReturn =>
     match s.send with
